@@ -521,7 +521,17 @@ fn mesh_case<F: Backend + RenderHints>(
     }
     match check_mesh(&mesh) {
         Err((kind, detail)) => {
-            cx.violation(format!("{} mesh: {kind}{}", F::NAME, class_for(&kind)), desc(), format!("{} triangles, {} vertices: {detail}", mesh.triangles.len(), mesh.vertices.len()));
+            // inside a known input class the signature names the exact input
+            // (shape, depth, transform), so that known_findings.json lists the
+            // inputs that fail on the unchanged tree one by one and any OTHER
+            // input of the class that starts to fail is still reported
+            let class = class_for(&kind);
+            let sig = if class.is_empty() {
+                format!("{} mesh: {kind}", F::NAME)
+            } else {
+                format!("{} mesh: {kind}{class} :: {}, depth {depth}, {tname}", F::NAME, s.name)
+            };
+            cx.violation(sig, desc(), format!("{} triangles, {} vertices: {detail}", mesh.triangles.len(), mesh.vertices.len()));
         }
         Ok(st) => {
             if let Some(vref) = vref {
@@ -556,7 +566,7 @@ fn mesh_case<F: Backend + RenderHints>(
 #[derive(Clone, Debug)]
 enum Unit {
     Corners { jit: bool, depth: u8 },
-    Singles { jit: bool },
+    Singles { jit: bool, prim: usize },
     Pairs { a: usize, b: usize, jit: bool },
 }
 
@@ -569,7 +579,9 @@ fn units(tier: Tier) -> Vec<Unit> {
             }
             v.push(Unit::Corners { jit, depth });
         }
-        v.push(Unit::Singles { jit });
+        for prim in 0..PRIMS.len() + EXTRA_PRIMS.len() {
+            v.push(Unit::Singles { jit, prim });
+        }
     }
     for a in 0..PRIMS.len() {
         for b in 0..PRIMS.len() {
@@ -609,12 +621,12 @@ fn run<F: Backend + RenderHints>(cx: &mut Cx, tier: Tier, u: &Unit) {
                 }
             }
         }
-        Unit::Singles { .. } => {
-            let dmax = if tier == Tier::Quick { 4 } else { 6 };
+        Unit::Singles { prim, .. } => {
+            let dmax = if tier == Tier::Quick { 5 } else { 6 };
             // every primitive off the lattice, centred on the lattice centre
             // (axes and poles on lattice lines) and on another dyadic line
             let mut shapes = vec![];
-            for p in PRIMS.iter().chain(EXTRA_PRIMS.iter()) {
+            for p in PRIMS.iter().chain(EXTRA_PRIMS.iter()).skip(*prim).take(1) {
                 shapes.push(single(*p));
                 shapes.push(single_at(*p, [0.0, 0.0, 0.0]));
                 shapes.push(single_at(*p, [0.25, -0.125, 0.0]));
@@ -693,7 +705,7 @@ impl Check for C08 {
     fn run_unit(&self, tier: Tier, unit: usize, cx: &mut Cx) {
         let u = units(tier)[unit].clone();
         let jit = match &u {
-            Unit::Corners { jit, .. } | Unit::Singles { jit } | Unit::Pairs { jit, .. } => *jit,
+            Unit::Corners { jit, .. } | Unit::Singles { jit, .. } | Unit::Pairs { jit, .. } => *jit,
         };
         if jit {
             run::<JitFunction>(cx, tier, &u);
